@@ -343,8 +343,16 @@ def check_tables(seed, rounds):
                 if sample is None:
                     sample = {"row": name, "declared_write_set": sorted(declared), "changed": sorted(changed_kinds(before[ty][0], walk(objs[ty], ty)[0]))}
         # ---- derive operations: declared sharing
-        for name, row in TABLE["derive"].items():
+        derive_rows = list(TABLE["derive"].items())
+        # the blueprint-level derive steps once more on a blueprint of > 1024 segments (size-dependent copy paths)
+        derive_rows += [(nm, rw, True) for nm, rw in TABLE["derive"].items() if nm.startswith("bp.") or nm == "el.addBluePrint"]
+        for entry in derive_rows:
+            name, row = entry[0], entry[1]
             o = make_objects(rng)
+            if len(entry) == 3:
+                from broadbean.broadbean import PulseAtoms
+                for _k in range(1040):
+                    o["bp"].insertSegment(-1, PulseAtoms.ramp, (0, 1), dur=2 / o["SR"])
             calls = derive_calls(o, rng)
             if name not in calls:
                 fails.append(f"no driver for derive row {name}")
